@@ -9,7 +9,7 @@
    PARTIAL: finiteness of the binary32 results is not a theorem (no rounding / overflow analysis);
    `expf` is an oracle; the binary32 evaluation is executed bit for bit by the correspondence run. *)
 From Coq Require Import Sorted Reals.
-From HpoV Require Import Gen.Consts Model.Base Model.Group Model.Onto Model.Query Model.Similarity Model.Script Proofs.DistP Proofs.AnnotP Proofs.C04P Proofs.C04R Proofs.C04B.
+From HpoV Require Import Gen.Consts Model.Base Model.Group Model.Onto Model.Query Model.Similarity Model.Script Proofs.DistP Proofs.AnnotP Proofs.C04P Proofs.C04R Proofs.C04B Proofs.AllPathsP.
 
 Theorem C04_self_is_one : forall F fadd fsub fmul fdiv fgt fis0 fzero fnzero fone ftwo fmone f_of_u16 fexp ic o k a b,
   t_id a = t_id b ->
@@ -76,6 +76,12 @@ Theorem C04_builder_scores_nonnegative : forall icf s codes o, run_script icf s 
     simR (icRo o) g o k ta tb = Ok r -> (0 <= r)%R.
 Proof. exact builder_similarity_nonneg. Qed.
 
+(* ... and in every [constructed] ontology (Proofs/AllPathsP.v: every public construction path) *)
+Theorem C04_constructed_scores_nonnegative : forall icf o, constructed icf o ->
+  forall g k ta tb r, In ta (ar_terms (o_arena o)) -> In tb (ar_terms (o_arena o)) ->
+    simR (icRo o) g o k ta tb = Ok r -> (0 <= r)%R.
+Proof. exact constructed_similarity_nonneg. Qed.
+
 Print Assumptions C04_self_is_one.
 Print Assumptions C04_mutation_unannotated_zero.
 Print Assumptions C04_distance_ignores_kind.
@@ -85,3 +91,4 @@ Print Assumptions C04_resnik_is_zero_or_an_ancestor_ic.
 Print Assumptions C04_symmetric.
 Print Assumptions C04_exact_scores_nonnegative.
 Print Assumptions C04_builder_scores_nonnegative.
+Print Assumptions C04_constructed_scores_nonnegative.
